@@ -5,6 +5,8 @@ Part C: message / future / store modelling.                      Part D-E: prima
 Part F: chain replication (CRAQ dirty bookkeeping, reads).       Part G: multi-leader (per-key merge on Replicate, local write).
 Part H: lemmas (merge is ACI, newest-seq-wins is order independent, ack => applied composition).
 Part I: bounded native stand-in (findings/c17_replication.py).
+Part J: multi-leader anti-entropy (digest, request, response handlers; exchange lemma); build_chain.
+Part K: ReplicatedStore.get / put / delete (3 replicas that may fail, one task per consistency level).
 Exit 0 needs fixes/C17_*.diff applied to the repo; the pinned tree violates the property (see the ghost assertions
 `backup/...`, `chain/...`, the ChainNode invariants and the LeaderNode yield clauses).  See DESIGN.md section 3-C17.
 """
@@ -70,6 +72,23 @@ loop(F_CH, "ChainNode._build_commit_notifications", 1, types={"events": lambda: 
                ("Event", "_sort_index"), ("Event", "_id"), ("Event", "_cancelled"), ("Event", "context")],
      inv=[("every-notification-names-the-key-and-the-seq", lambda L: _all_commit_notifies(L.self, L.events, L.key, L.seq))])
 
+# LeaderNode anti-entropy (part J).  `for key, vdata in remote_versions.items()`: the body waits for the store, so
+# any other process may run inside an iteration: world havoc at the loop head, the node's wiring is the frame.
+# The only invariant is a per-iteration postcondition (L.loop_phase == "step"), see _ae_iteration.
+AE_KEEPS = ([("LeaderNode", f) for f in ("_store", "_network", "_resolver", "_merkle", "_vclock", "_peers")]
+            + [("KVStore", f) for f in ("_read_latency", "_write_latency", "_delete_latency", "_capacity")]
+            + [("Entity", "_clock"), ("Entity", "name"), ("Event", "context"), ("Event", "event_type"), ("Event", "target")])
+for _q in ("LeaderNode._handle_anti_entropy_request", "LeaderNode._handle_anti_entropy_response"):
+    loop(F_ML, _q, 1, modifies="world", keeps=AE_KEEPS, inv=[
+        ("bounded-number-of-peers", lambda L: slen(L.self._peers) <= 3),
+        ("this-key-holds-the-merge-of-own-and-received-version--recorded-before-any-store-wait", lambda L: _ae_iteration(L, 0)),
+        ("no-other-key-touched--version-table-not-rewritten-after-the-wait", lambda L: _ae_iteration(L, 1)),
+        ("store-receives-and-holds-the-value-of-the-recorded-version", lambda L: _ae_iteration(L, 2))])
+# building the digest: `for key, vv in self._versions.items(): data_to_send[key] = {...}` (no waits, writes a local only)
+for _q, _n in (("LeaderNode._handle_anti_entropy", 1), ("LeaderNode._handle_anti_entropy_request", 3)):
+    loop(F_ML, _q, _n, types={"data_to_send": lambda: AEV}, inv=[
+        ("digest-so-far-is-the-version-table-on-the-visited-keys", lambda L: _digest_so_far(L))])
+
 from specs.common import *  # noqa: E402,F401
 
 import happysimulator.components.replication.multi_leader as _ml_mod  # noqa: E402
@@ -99,8 +118,26 @@ PROPERTY = {
         "arbitrary (every yield havocs the whole heap except the listed stable fields)",
         "A-bound: at most 3 backups per primary / 3 peers per leader (the handlers are unrolled over the list; the "
         "clauses are the same for every size, the check covers 0..3)",
-        "A-chain: chain nodes are wired by build_chain (the node reached by following next_node has role TAIL); a "
+        "A-chain: chain nodes are wired by build_chain (the node reached by following next_node has role TAIL; "
+        "build_chain itself is verified for 2, 3 and 4 nodes, entities 'as attached'); a "
         "node that is not wired into a chain (head_node is None) answers reads from its own store",
+        "A-digest (part J): an AntiEntropyRequest / AntiEntropyResponse carries 'versions', every entry of it has value, "
+        "timestamp and writer_id, a request also names its source and root_hash - as the verified senders "
+        "(_handle_anti_entropy, _handle_anti_entropy_request + Network.send) build them; MerkleTree.root_hash is an opaque "
+        "string (stub_of, C20); random.choice returns ANY element of the list; in the two merge-loop tasks "
+        "LastWriterWins.resolve is replaced by its contract of part A2 (second candidate iff strictly later) and each "
+        "solver stage is limited to 10 s (every clause proves in < 0.2 s; a shorter limit can only turn a verdict into "
+        "UNDECIDED, never into a pass)",
+        "A-exchange: 'after a completed exchange both leaders hold the resolver's winner' is the lemma "
+        "anti-entropy-exchange-leaves-both-with-the-winner over the per-iteration clauses, for an exchange during which "
+        "no other handler writes the key (every store wait inside the merge loops is a world-havoc point in the proof, so "
+        "the per-key clauses themselves hold under any interleaving); a responder stays silent when the Merkle digests "
+        "agree (equal key->VALUE maps, C20) - version metadata may then differ while the values agree",
+        "A-replicas (part K): a ReplicatedStore has 3 pairwise distinct, unbounded KVStore replicas (one task per "
+        "consistency level; the quorum arithmetic for any n is part B); a replica operation either raises TimeoutError "
+        "before having any effect (the failure the code catches) or behaves as the KVStore contract (stub_of "
+        "KVStore.get/put/delete).  NOT covered: read-your-writes for R + W > N after a replica missed a write - replica "
+        "values carry no version and get() returns the first non-None answer (open finding, triage/c17_quorum_stale_read.py)",
         "A-lww: versions carry float timestamps (HLCTimestamp timestamps are not covered) and leaders use the default "
         "LastWriterWins resolver; VectorClockMerge is verified with merge_fn=None",
         "A-ML-timestamps (hypothesis H1 of the merge lemma): a version whose vector clock dominates another's also has "
@@ -108,11 +145,12 @@ PROPERTY = {
         "ordered writes happen at distinct simulated instants; with zero-latency links and same-instant writes "
         "last-writer-wins and causality can disagree (not covered)",
         "A-clock/merkle: VectorClock.send/receive (contracts of specs/C18.py) and MerkleTree.update (C20) are used "
-        "opaquely (stub_of with no ensures); leaders are wired with add_peers (LeaderNode._vclock is not None)",
+        "opaquely (stub_of with no ensures; also VectorClock.__init__ in the add_peers task); leaders are wired with "
+        "add_peers (LeaderNode._vclock is not None - add_peers itself is verified to create the clock)",
         "composition: 'once all in-flight messages are delivered every replica holds the same value' is the paper step "
         "from the per-handler clauses + the lemmas of part H (each replica's per-key state is an order-independent "
         "fold over the set of messages it received); the anti-entropy handlers apply the same per-key merge in a loop "
-        "and are exercised only by the bounded check",
+        "(part J: per-iteration clauses + exchange lemma) and are additionally exercised end to end by the bounded check",
     ],
 }
 
@@ -166,7 +204,32 @@ fn(LastWriterWins, "resolve", args={"key": Str, "versions": vv_pair}, ensures=[
     ("no-candidate-is-later", lambda s: Not(lww_gt(s.versions[0], s.result)) & Not(lww_gt(s.versions[1], s.result))),
     ("later-candidate-wins", lambda s: implies(lww_gt(s.versions[1], s.versions[0]), is_obj(s.result, s.versions[1]))
         & implies(lww_gt(s.versions[0], s.versions[1]), is_obj(s.result, s.versions[0]))),
+    # (the handlers pass [stored, incoming]: on a tie the stored version stays - no needless store write)
+    ("tie-keeps-the-first-candidate", lambda s: implies(Not(lww_gt(s.versions[1], s.versions[0])), is_obj(s.result, s.versions[0]))),
 ])
+
+
+def _lww_by_contract():
+    """LastWriterWins.resolve replaced by its contract above (two candidates: the second iff it is strictly later) -
+    one fork instead of the tuple comparisons of max(); used by the anti-entropy tasks (part J)"""
+    saved = []
+
+    def resolve(self, key, versions):
+        v0, v1 = versions
+        return v1 if _ctx.cur().branch(to_z3_bool(lww_gt(v1, v0)), site="lww-resolve") else v0
+
+    def setup(s):
+        # (also: 10 s per solver stage instead of 180 s - every clause of these tasks proves in < 0.2 s; a VIOLATED
+        # clause is refuted by the last, extensionality-free stage only, after the first three have timed out)
+        saved.append((LastWriterWins.__dict__["resolve"], _ctx.OB_TIMEOUT_MS))
+        LastWriterWins.resolve = resolve
+        _ctx.OB_TIMEOUT_MS = min(_ctx.OB_TIMEOUT_MS, 40000)      # (wall-clock cap with a 200x margin over the 0.2 s needed)
+        return []
+
+    def teardown(s):
+        while saved:
+            LastWriterWins.resolve, _ctx.OB_TIMEOUT_MS = saved.pop()
+    return {"setup": setup, "teardown": teardown}
 
 
 def vc_of(v):
@@ -413,11 +476,15 @@ class RecProxy:
     __hash__ = None
 
 
+# anti-entropy digest: key -> {'value', 'timestamp', 'writer_id', 'vector_clock'} (the fields of one version)
+VDATA = Record("vdata", {"value": Any, "timestamp": Real, "writer_id": Str, "vector_clock": Opt(VC)})
+AEV = Map(Str, VDATA)
+
 # one record type for every message of the three replication protocols
 MSG = Record("replmsg", {
     "source": Str, "destination": Str, "key": Str, "value": Any, "seq": Int,
     "ack_future": OptRef(SimFuture), "reply_future": OptRef(SimFuture),
-    "timestamp": Real, "writer_id": Str, "vector_clock": VC, "root_hash": Str})
+    "timestamp": Real, "writer_id": Str, "vector_clock": VC, "root_hash": Str, "versions": AEV})
 M = MSG.dt
 
 
@@ -1149,9 +1216,12 @@ def _merge_installed(s, old):
     the stored one -> incoming;  stored one causally after incoming -> unchanged;  concurrent -> the later of the
     two in the last-writer-wins order (the stored one on a tie).  'causally after' = the verdict of _vc_dominates
     (contract in part A) on (incoming clock, stored clock) resp. (stored clock, incoming clock)."""
-    key = mget(md(s.event), "key")
-    inc = _incoming_term(s)
-    oldv, newv = old._versions, s.self._versions
+    return _merged(s.self, old, mget(md(s.event), "key"), _incoming_term(s))
+
+
+def _merged(new, old, key, inc):
+    """new._versions[key] is merge(old._versions[key], inc) - see _merge_installed (new / old: two views of one leader)"""
+    oldv, newv = old._versions, new._versions
     d = VERSIONS.dt
     had = z3.Select(d.dom(oldv.term), kt(key))
     ex = z3.Select(d.val(oldv.term), kt(key))
@@ -1172,9 +1242,12 @@ def _merge_installed(s, old):
 
 
 def _others_untouched(s, old):
-    key = mget(md(s.event), "key")
+    return _untouched_except(s.self, old, mget(md(s.event), "key"))
+
+
+def _untouched_except(new, old, key):
     d = VERSIONS.dt
-    o, n = old._versions.term, s.self._versions.term
+    o, n = old._versions.term, new._versions.term
     return forall(Str, lambda k: implies(k != key, mk_bool(z3.And(
         z3.Select(d.dom(n), k.t) == z3.Select(d.dom(o), k.t), z3.Select(d.val(n), k.t) == z3.Select(d.val(o), k.t)))))
 
@@ -1356,9 +1429,476 @@ fn(LeaderNode, "_handle_read", args={"event": Ref(Event)}, uses=KV_API + [FUT_RE
             ("store-untouched", lambda s: mk_bool(s.self._store._data.term == s.pre(s.self._store)._data.term))])
 
 
-# (ReplicatedStore.get / put / delete are left out: they drive the replica generators with next() inside try/except
-# and index a sorted Python list with the symbolic `required - 1` - OUT-OF-REACH "symbolic number used as a
-# concrete index"; the quorum arithmetic they rest on is part B)
+# ============================================================================ J. multi-leader anti-entropy
+# digest exchange: A sends its whole version table (AntiEntropyRequest); B merges it key by key and answers with ITS
+# table (AntiEntropyResponse) unless the Merkle digests already agree; A merges the answer.  Statement: per key the
+# receiver ends with merge(own version, received version) - the same merge as _handle_replicate (part G), so a
+# version is never replaced by a causally older / LWW-earlier one - recorded BEFORE the store wait; the answer is the
+# responder's complete table.  With the merge lemma (part H) a completed, undisturbed exchange leaves both with the
+# winner (lemma below).  The Merkle root hash is an opaque string (C20).
+from pyvc.heap import old_view as _old_view  # noqa: E402
+
+stub_of(MerkleTree, "root_hash", returns=Str, modifies=[], ensures=[])
+ROOT_HASH = (MerkleTree, "root_hash")
+
+
+def _ae_incoming_term(m, key):
+    """the version the digest of message m carries for key (raw VV term), as the handlers build it"""
+    vd = z3.Select(AEV.dt.val(MSG.acc("versions")(m)), kt(key))
+    vc = z3.If(VDATA.has(vd, "vector_clock"), VDATA.acc("vector_clock")(vd), Opt(VC).dt.none)
+    return VV.dt.mk(z3.IntVal(0), VDATA.acc("value")(vd), VDATA.acc("timestamp")(vd), VDATA.acc("writer_id")(vd), vc)
+
+
+def _in_digest(m, key):
+    return mk_bool(z3.And(MSG.has(m, "versions"), z3.Select(AEV.dt.dom(MSG.acc("versions")(m)), kt(key))))
+
+
+def _digest_wf(s):
+    """every entry of a received digest is a complete version record (as the verified senders build it)"""
+    vs = MSG.acc("versions")(md(s.event))
+    return mhas(md(s.event), "versions") & forall(Str, lambda k: implies(mk_bool(z3.Select(AEV.dt.dom(vs), k.t)), mk_bool(z3.And(
+        *[VDATA.has(z3.Select(AEV.dt.val(vs), k.t), f) for f in ("value", "timestamp", "writer_id")]))))
+
+
+def _vdata_is(vd, vv):
+    """the digest entry vd carries exactly the version vv (raw terms)"""
+    return mk_bool(z3.And(*[VDATA.has(vd, f) for f in VDATA.fields],
+                          VDATA.acc("value")(vd) == VV.dt.value(vv), VDATA.acc("timestamp")(vd) == VV.dt.timestamp(vv),
+                          VDATA.acc("writer_id")(vd) == VV.dt.writer_id(vv),
+                          VDATA.acc("vector_clock")(vd) == VV.dt.vector_clock(vv)))
+
+
+def _digest_of(node, vs):
+    """the digest (raw AEV term) is the node's complete version table: same keys, each entry the recorded version"""
+    d, a, tv = VERSIONS.dt, AEV.dt, node._versions.term
+    return forall(Str, lambda k: mk_bool(z3.Select(a.dom(vs), k.t) == z3.Select(d.dom(tv), k.t)) & implies(
+        mk_bool(z3.Select(d.dom(tv), k.t)), _vdata_is(z3.Select(a.val(vs), k.t), z3.Select(d.val(tv), k.t))))
+
+
+def _digest_so_far(L):
+    dts = L.data_to_send
+    if isinstance(dts, dict):           # the concrete {} before the loop (nothing visited yet)
+        return len(dts) == 0
+    a, t, tv = AEV.dt, dts.term, L.self._versions.term
+    return mk_bool(a.dom(t) == L.visited.arr) & forall(Str, lambda k: implies(
+        contains(L.visited, k), _vdata_is(z3.Select(a.val(t), k.t), z3.Select(VERSIONS.dt.val(tv), k.t))))
+
+
+def _last_put_vals():
+    for q, vals, _r in reversed(_ctx.cur().ghost_args.get("trace", [])):
+        if q == "KVStore.put":
+            return vals
+    return None
+
+
+def _ae_store_wait(s, y):
+    """a store wait inside the merge loop: a non-negative delay.  Remembers the state at the loop head and the state
+    now for the clause of _ae_iteration, which is checked once the key of the pending store write is known (stating
+    it here for all keys - 'changed only at a digest key, to the merge' - proves, but the proved formula slows every
+    later feasibility check of the path by seconds)"""
+    if not isinstance(y, tuple):
+        c = _ctx.cur()
+        c.ghost_args["c17_ae_wait"] = (s.since(s.self), _old_view(s.self, c.heap.snapshot()))
+    return _delay_ok(s, y)
+
+
+def _ae_iteration(L, part):
+    """(three clauses, part 0..2, so that a violated one is refuted on a small goal)  one iteration = one key of the received digest.  No store write: the version table holds
+    merge(own, received) for the key (the own version won or was equal) and nothing else changed.  Store write: the
+    merge was recorded BEFORE the wait (states remembered at the yield), the table is not written again after it, and
+    the store received - and now holds - the value of the version that was recorded."""
+    if L.loop_phase != "step":
+        return True
+    key, m = L.key, md(L.event)
+    inc = _ae_incoming_term(m, key)
+    wait = _ctx.cur().ghost_args.get("c17_ae_wait")
+    put = _last_put_vals()
+    if put is None:
+        if wait is not None:
+            return False
+        return [_merged(L.self, L.since(L.self), key, inc), _untouched_except(L.self, L.since(L.self), key), True][part]
+    if wait is None:
+        return False
+    since, at_wait = wait
+    st = L.self._store
+    return [_merged(at_wait, since, key, inc),
+            _untouched_except(at_wait, since, key) & mk_bool(L.self._versions.term == L.since(L.self)._versions.term),
+            (put["key"] == key) & mk_bool(put["value"].t == VV.dt.value(mval(at_wait._versions, key)))
+            & has(st._data, key) & mk_bool(mval(st._data, key) == put["value"].t)][part]
+
+
+DIGEST_WF = ("digest-entries-are-complete-version-records", _digest_wf)
+AE_USES = KV_API + [(MerkleTree, "update"), ROOT_HASH, DOM_ML]
+
+fn(LeaderNode, "_handle_anti_entropy_response", args={"event": Ref(Event)}, uses=AE_USES, **_lww_by_contract(),
+   requires=[DIGEST_WF, UNBOUNDED], focus=ML_FOCUS,
+   yields=Yields(at_yield=[("delay-nonnegative", _ae_store_wait)], stable=NODE_STABLE),
+   ensures=[("returns-nothing", lambda s: s.result is None)])
+
+
+def _ae_response_yield(s, y):
+    """the answer goes to the requester and carries the responder's complete version table as it is now"""
+    if not isinstance(y, tuple):
+        return True
+    e = _single_event(y)
+    if e is None:
+        return False
+    m, req = md(e), md(s.event)
+    src = z3.If(MSG.has(req, "source"), MSG.acc("source")(req), z3.StringVal(""))
+    _ctx.cur().ghost_args["c17_ae_responded"] = True
+    return (same(e.target, s.self._network) & (e.event_type == "AntiEntropyResponse") & mhas(m, "destination", "versions")
+            & mk_bool(MSG.acc("destination")(m) == src) & _digest_of(s.self, MSG.acc("versions")(m)))
+
+
+def _ae_request_exit(s):
+    """no answer only when the digests agree (nothing to repair) or the requester is not a peer of this leader"""
+    c = _ctx.cur()
+    if c.ghost_args.get("c17_ae_responded"):
+        return True
+    req = md(s.event)
+    hashes = [r for q, _v, r in c.ghost_args.get("trace", []) if q.endswith("root_hash")]
+    remote = z3.If(MSG.has(req, "root_hash"), MSG.acc("root_hash")(req), z3.StringVal(""))
+    src = z3.If(MSG.has(req, "source"), MSG.acc("source")(req), z3.StringVal(""))
+    agree = mk_bool(hashes[-1].t == remote) if hashes else False
+    known = sym_or(*[mk_bool(p.name.t == src) for p in s.self._peers])
+    return agree | Not(known)
+
+
+fn(LeaderNode, "_handle_anti_entropy_request", args={"event": Ref(Event)}, uses=AE_USES, **_lww_by_contract(),
+   requires=[DIGEST_WF, UNBOUNDED,
+             ("request-names-its-sender-and-digest-hash (as sent by _handle_anti_entropy)", lambda s: mhas(md(s.event), "source", "root_hash"))],
+   focus=ML_FOCUS,
+   yields=Yields(at_yield=[("delay-nonnegative", _ae_store_wait),
+                           ("answer-carries-the-complete-version-table-to-the-requester", _ae_response_yield)],
+                 stable=NODE_STABLE),
+   ensures=[("returns-nothing", lambda s: s.result is None),
+            ("answers-unless-digests-agree-or-requester-unknown", _ae_request_exit)])
+
+
+class _AnyChoice:
+    """stand-in for the `random` module inside multi_leader.py while a task runs: choice() is ANY element"""
+
+    @staticmethod
+    def choice(seq):
+        items = [x for x in seq]
+        c = _ctx.cur()
+        i = c.fresh("choice", z3.IntSort())
+        c.assume(z3.And(i >= 0, i < len(items)))
+        return items[c.choose([i == j for j in range(len(items))], site="random.choice")]
+
+
+def _choice_env():
+    saved = []
+
+    def setup(s):
+        saved.append((_ml_mod.__dict__["random"], _ctx.OB_TIMEOUT_MS))
+        _ml_mod.__dict__["random"] = _AnyChoice
+        _ctx.OB_TIMEOUT_MS = min(_ctx.OB_TIMEOUT_MS, 40000)       # (as in _lww_by_contract: every clause proves in < 0.2 s)
+        return []
+
+    def teardown(s):
+        while saved:
+            _ml_mod.__dict__["random"], _ctx.OB_TIMEOUT_MS = saved.pop()
+    return {"setup": setup, "teardown": teardown}
+
+
+def _ae_start_yield(s, y):
+    """a round sends ONE request, to a peer, with this leader's complete version table and digest hash, and schedules
+    the next round (daemon) at this leader"""
+    if not isinstance(y, tuple) or isinstance(y[1], SymList) or len(y[1]) != 2:
+        return False
+    e, nxt = y[1]
+    m = md(e)
+    to_peer = sym_or(*[mget(m, "destination") == p.name for p in s.self._peers])
+    return (same(e.target, s.self._network) & (e.event_type == "AntiEntropyRequest")
+            & mhas(m, "source", "destination", "root_hash", "versions") & (mget(m, "source") == s.self.name) & to_peer
+            & _digest_of(s.self, MSG.acc("versions")(m))
+            & same(nxt.target, s.self) & (nxt.event_type == "AntiEntropy") & nxt.daemon)
+
+
+fn(LeaderNode, "_handle_anti_entropy", args={"event": Ref(Event)}, uses=[ROOT_HASH], **_choice_env(),
+   yields=Yields(at_yield=[("delay-nonnegative", _delay_ok),
+                           ("one-request-to-a-peer-with-the-complete-version-table--next-round-scheduled", _ae_start_yield),
+                           ("version-table-untouched", lambda s, y: seg_unchanged(s, s.self, "_versions"))],
+                 stable=NODE_STABLE),
+   ensures=[("returns-nothing", lambda s: s.result is None),
+            ("version-table-untouched", lambda s: seg_unchanged(s, s.self, "_versions"))])
+
+
+def _exchange_lemma():
+    """Composition (with the merge of part H, M = the LWW maximum under H1): A holds a, B holds b for a key.
+    Request: B := M(b, a).  Response carries B's table: A := M(a, M(b, a)).  Both end with M(a, b) - the resolver's
+    winner of their two versions.  Keys only B has: A installs b (first-version case), keys only A has: B installs a."""
+    V = z3.DeclareSort("VersionX")
+    ts = z3.Function("x_ts", V, z3.RealSort())
+    wr = z3.Function("x_writer", V, z3.StringSort())
+    D = z3.Function("x_dominates", V, V, z3.BoolSort())
+
+    def gt(p, q):
+        return z3.Or(ts(p) > ts(q), z3.And(ts(p) == ts(q), wr(q) < wr(p)))
+
+    def merge(x, y):
+        return z3.If(D(y, x), y, z3.If(D(x, y), x, z3.If(gt(y, x), y, x)))
+    a, b = z3.Const("xa", V), z3.Const("xb", V)
+    b1 = merge(b, a)
+    a1 = merge(a, b1)
+    for p in (a, b, b1, a1):
+        for q in (a, b, b1, a1):
+            assume(z3.Implies(D(p, q), gt(p, q)))
+            assume(z3.Implies(z3.And(ts(p) == ts(q), wr(p) == wr(q)), p == q))
+    oblige("both-hold-the-same-version", a1 == b1)
+    oblige("it-is-one-of-the-two", z3.Or(a1 == a, a1 == b))
+    oblige("it-is-the-lww-winner", z3.And(z3.Not(gt(a, a1)), z3.Not(gt(b, a1))))
+    oblige("neither-side-went-back", z3.And(z3.Not(gt(a, a1)), z3.Not(gt(b, b1))))
+
+
+lemma("anti-entropy-exchange-leaves-both-with-the-winner", _exchange_lemma)
+
+# ---- handle_event of the four node classes: every protocol message reaches the handler whose contract (parts D-G, J)
+# speaks about it - exactly one handler, with the very event; anything else is ignored.  The handlers are replaced
+# by recorders for these tasks (their own contracts are the tasks above).
+import inspect as _inspect  # noqa: E402
+
+
+def _routing(klass, table, guard=None):
+    saved = []
+
+    def recorder(name, is_gen):
+        def rec(self, event):
+            _ctx.cur().ghost_args.setdefault("c17_routed", []).append((name, event))
+            return None
+        if not is_gen:
+            return rec
+
+        def rec_gen(self, event):
+            rec(self, event)
+            return None
+            yield       # noqa: unreachable - makes this a generator function, like the handler it stands for
+        return rec_gen
+
+    def setup(s):
+        for name in sorted(set(table.values())):
+            f = klass.__dict__[name]
+            saved.append((name, f))
+            setattr(klass, name, recorder(name, _inspect.isgeneratorfunction(f)))
+        return []
+
+    def teardown(s):
+        while saved:
+            name, f = saved.pop()
+            setattr(klass, name, f)
+
+    def post(s):
+        routed = _ctx.cur().ghost_args.get("c17_routed", [])
+        et = s.event.event_type
+        for t, name in table.items():
+            if et == t:
+                if guard is not None and t in guard and not guard[t](s):
+                    return len(routed) == 0
+                return len(routed) == 1 and routed[0][0] == name and same(routed[0][1], s.event) is True
+        return len(routed) == 0
+    return {"setup": setup, "teardown": teardown}, post
+
+
+for _k, _table, _guard in (
+        (PrimaryNode, {"Write": "_handle_write", "Read": "_handle_read", "ReplicationAck": "_handle_ack"}, None),
+        (BackupNode, {"Replicate": "_handle_replicate", "Read": "_handle_read"}, {"Read": lambda s: s.self._serve_reads}),
+        (ChainNode, {"Write": "_handle_write", "Propagate": "_handle_propagate", "WriteAck": "_handle_write_ack",
+                     "Read": "_handle_read", "CommitNotify": "_handle_commit_notify"}, None),
+        (LeaderNode, {"Write": "_handle_write", "Read": "_handle_read", "Replicate": "_handle_replicate",
+                      "AntiEntropy": "_handle_anti_entropy", "AntiEntropyRequest": "_handle_anti_entropy_request",
+                      "AntiEntropyResponse": "_handle_anti_entropy_response"}, None)):
+    _env, _post = _routing(_k, _table, _guard)
+    fn(_k, "handle_event", args={"event": Ref(Event)}, **_env, yields=Yields(at_yield=[("no-yield-of-its-own", lambda s, y: False)]),
+       ensures=[("message-reaches-exactly-the-handler-of-its-type", _post), ("returns-nothing", lambda s: s.result is None)])
+
+# ---- add_peers: discharges 'leaders are wired with add_peers (LeaderNode._vclock is not None)' of A-clock/merkle
+# (the clock's own constructor - dict.fromkeys over the node ids - is C18's; opaque here like send / receive)
+stub_of(VectorClock, "__init__", modifies=["_node_id", "_vector"], ensures=[])
+fn(LeaderNode, "add_peers", args={"peers": Seq(Ref(Entity))}, uses=[(VectorClock, "__init__")],
+   requires=[("at-most-three-peers (configuration bound)", lambda s: slen(s.peers) <= MAX_BACKUPS)],
+   ensures=[("peers-recorded-in-order", lambda s: mk_bool(seq_term(s.self._peers) == seq_term(s.peers))),
+            ("vector-clock-created", lambda s: s.self._vclock is not None),
+            ("version-table-untouched", lambda s: unchanged(s, s.self, "_versions"))])
+
+# ---- build_chain: discharges assumption A-chain for chains of 2..4 nodes (the wiring the read / commit clauses of
+# part F rely on: following next_node ends at the node with role TAIL, every node knows the head)
+def _chain_wired(s):
+    nodes = [n for n in s.result]
+    names = [x for x in s.names]
+    if len(nodes) != len(names) or len(nodes) < 2:
+        return False
+    ok = True
+    last = len(nodes) - 1
+    for i, n in enumerate(nodes):
+        role = ChainNodeRole.HEAD if i == 0 else ChainNodeRole.TAIL if i == last else ChainNodeRole.MIDDLE
+        ok = ok & (n.name == names[i]) & mk_bool(field_term(n, "_role") == ROLE.unwrap(role)) & same(n.head_node, nodes[0]) \
+            & same(n._network, s.network) & iff(n._craq_enabled, s.craq_enabled)
+        ok = ok & (same(n.next_node, nodes[i + 1]) if i < last else mk_bool(field_term(n, "next_node") == 0))
+        ok = ok & (same(n.prev_node, nodes[i - 1]) if i > 0 else mk_bool(field_term(n, "prev_node") == 0))
+        for m in nodes[i + 1:]:
+            ok = ok & Not(same(n, m))
+        # a fresh node: no write in flight, nothing dirty, nothing accepted
+        ok = ok & (slen(n._dirty_keys) == 0) & (slen(n._dirty_count) == 0) & (slen(n._latest) == 0) & (n._next_seq == 0)
+    return ok
+
+
+# (entities are verified "as attached" - COMMON_ASSUMPTIONS: Entity.__init__ leaves `_clock = None` until the simulation
+# injects the clock; the setup replaces Entity.__init__ by its first statement, same as specs/C07.py)
+_ENTITY_INIT = [Entity.__init__]
+
+
+def _attached(s):
+    def _init(self, name):
+        self.name = name
+    Entity.__init__ = _init
+    return []
+
+
+def _detach(s):
+    Entity.__init__ = _ENTITY_INIT[0]
+
+
+# (a Python list of n symbolic names, n = 2, 3, 4: a z3 sequence of strings is a nested sequence, on which z3 answers
+# `unknown` instead of producing the counterexample of a violated clause)
+for _n in (2, 3, 4):
+    fn(_ch_mod.__name__, "build_chain", kind="function", label=f"{_n}-nodes", setup=_attached, teardown=_detach,
+       args={"names": lambda n=_n: [Str.fresh(f"name{i}") for i in range(n)], "network": Ref(Network),
+             "store_factory": Fn(Ref(KVStore), "store_factory"), "craq_enabled": Bool},
+       returns=Seq(Ref(ChainNode)),
+       ensures=[("head-middle-tail-in-order--linked-both-ways--every-node-knows-the-head", _chain_wired)])
+
+# ============================================================================ K. ReplicatedStore.get / put / delete
+# Three replicas (configuration bound), one task per consistency level.  Environment model: a replica operation
+# either fails with TimeoutError before having any effect (the failure the code handles: `except (TimeoutError,
+# RuntimeError, OSError)`) or behaves as the KVStore contract (part C) - so W / R matter.
+KV_DEL = stub_of(KVStore, "delete", returns=Bool, modifies=["_data", "_insertion_order", "_deletes"], ensures=[
+    lambda s: iff(s.result, has(s.old(s.self)._data, s.key))
+    & mk_bool(_data_dom(s.self) == z3.Store(_data_dom(s.old(s.self)), kt(s.key), z3.BoolVal(False)))
+    & forall(Str, lambda k: implies(k != s.key, mk_bool(z3.Select(_data_val(s.self), k.t) == z3.Select(_data_val(s.old(s.self)), k.t))))])
+KV_DEL.stub_yield = lambda s: s.self._delete_latency
+KV_API3 = KV_API + [(KVStore, "delete")]
+N_REPLICAS = 3
+LEVEL_NEEDS = {ConsistencyLevel.ONE: 1, ConsistencyLevel.QUORUM: 2, ConsistencyLevel.ALL: 3}     # (n = 3; part B proves the general formula)
+
+
+def _flaky_replicas():
+    """setup/teardown: every replica operation first forks on 'replica unavailable' -> TimeoutError, nothing applied"""
+    saved = []
+
+    def wrap(name):
+        inner = KVStore.__dict__[name]
+
+        def op(self, *a, **k):
+            c = _ctx.cur()
+            c.ghost_args.setdefault("c17_attempts", []).append((name, self))
+            if c.branch(c.fresh("replica_down", z3.BoolSort()), site="replica-down:" + name):
+                raise TimeoutError("replica unavailable")
+            return inner(self, *a, **k)
+        op._pyvc_stub = True
+        return op
+
+    def setup(s):
+        for name in ("get", "put", "delete"):
+            saved.append((name, KVStore.__dict__[name]))
+            setattr(KVStore, name, wrap(name))
+        # (the first precondition of RS_PRE, assumed already here: `focus` iterates the replica list before the
+        # preconditions are assumed)
+        _ctx.cur().assume(to_z3_bool(slen(s.self._replicas) == N_REPLICAS))
+        return []
+
+    def teardown(s):
+        while saved:
+            name, f = saved.pop()
+            setattr(KVStore, name, f)
+    return {"setup": setup, "teardown": teardown}
+
+
+def _replicas(s):
+    return [r for r in s.self._replicas]
+
+
+def _completed(q):
+    """ghost call trace: the replica operations of kind q that COMPLETED on this path: (replica, arguments, result)"""
+    return [(vals["self"], vals, r) for qq, vals, r in _ctx.cur().ghost_args.get("trace", []) if qq == "KVStore." + q]
+
+
+def _each_replica_once(s, q):
+    """the operation was attempted on every replica, once each, in list order"""
+    att = [o for (n, o) in _ctx.cur().ghost_args.get("c17_attempts", []) if n == q]
+    reps = _replicas(s)
+    return len(att) == len(reps) and sym_and(*[same(a, r) for a, r in zip(att, reps)])
+
+
+RS_PRE = [("three-replicas (configuration bound of this check)", lambda s: slen(s.self._replicas) == N_REPLICAS),
+          ("replicas-are-pairwise-distinct-stores", lambda s: sym_and(*[Not(same(a, b)) for i, a in enumerate(_replicas(s))
+                                                                      for b in _replicas(s)[i + 1:]])),
+          ("replica-stores-unbounded", lambda s: all(r._capacity is None for r in _replicas(s)))]
+RS_STABLE = [("Entity", "_clock"), ("Entity", "name")]
+
+
+def _rs_put_post(level):
+    need = LEVEL_NEEDS[level]
+
+    def post(s):
+        done = _completed("put")
+        ok = sym_and(*[(v["key"] == s.key) & mk_bool(v["value"].t == s.value.t) for _o, v, _r in done])
+        acked = s.result if isinstance(s.result, bool) else to_z3_bool(s.result)
+        want = len(done) >= need
+        return ok & (acked == want if isinstance(acked, bool) else mk_bool(acked == z3.BoolVal(want)))
+    return post
+
+
+def _rs_get_post(level):
+    need = LEVEL_NEEDS[level]
+
+    def post(s):
+        done = _completed("get")
+        if s.result is None:
+            # a miss / failed read: fewer than R replicas answered, or no replica that answered holds the key
+            return len(done) < need or all(r is None for _o, _v, r in done)
+        # a hit: at least R replicas had answered, and the value is what one of them held
+        return len(done) >= need and sym_or(*[mk_bool(r.t == s.result.t) for _o, _v, r in done if r is not None])
+    return post
+
+
+def _rs_delete_post(level):
+    need = LEVEL_NEEDS[level]
+
+    def post(s):
+        done = _completed("delete")
+        existed = sym_or(*[r for _o, _v, r in done]) if done else False
+        want = existed if len(done) >= need else False
+        res = s.result
+        if isinstance(res, bool) and isinstance(want, bool):
+            return res == want
+        return mk_bool(to_z3_bool(res) == to_z3_bool(want))
+    return post
+
+
+def _replica_data_untouched(s):
+    return sym_and(*[mk_bool(r._data.term == s.pre(r)._data.term) for r in _replicas(s)])
+
+
+for _lv in ConsistencyLevel:
+    _is_w = (f"write-consistency-{_lv.name}", lambda s, lv=_lv: s.self._write_consistency is lv)
+    _is_r = (f"read-consistency-{_lv.name}", lambda s, lv=_lv: s.self._read_consistency is lv)
+    fn(ReplicatedStore, "put", args={"key": Str, "value": Any}, label=_lv.name, uses=KV_API3, **_flaky_replicas(),
+       requires=RS_PRE + [_is_w], focus=_replicas,
+       yields=Yields(at_yield=[("delay-nonnegative", _delay_ok)], stable=RS_STABLE),
+       ensures=[("acknowledged-iff-at-least-W-replicas-applied-this-write", _rs_put_post(_lv)),
+                ("every-replica-is-sent-the-write", lambda s: _each_replica_once(s, "put"))])
+    fn(ReplicatedStore, "get", args={"key": Str}, label=_lv.name, uses=KV_API3, **_flaky_replicas(),
+       requires=RS_PRE + [_is_r], focus=_replicas,
+       yields=Yields(at_yield=[("delay-nonnegative", _delay_ok),
+                               ("replica-data-untouched", lambda s, y: _replica_data_untouched(s))], stable=RS_STABLE),
+       ensures=[("hit-only-after-R-answers-and-from-an-answering-replica--miss-only-if-none-of-them-holds-the-key", _rs_get_post(_lv)),
+                ("replica-data-untouched", _replica_data_untouched)])
+    fn(ReplicatedStore, "delete", args={"key": Str}, label=_lv.name, uses=KV_API3, **_flaky_replicas(),
+       requires=RS_PRE + [_is_w], focus=_replicas,
+       yields=Yields(at_yield=[("delay-nonnegative", _delay_ok)], stable=RS_STABLE),
+       ensures=[("acknowledged-iff-at-least-W-replicas-deleted-and-the-key-existed", _rs_delete_post(_lv)),
+                ("every-replica-is-sent-the-delete", lambda s: _each_replica_once(s, "delete"))])
 
 # ============================================================================ I. bounded native stand-in (end to end)
 def _random_replication_runs(seed, tier):
